@@ -711,6 +711,19 @@ def parse_top_level_elements(path: Path, data: List, context: ParseContext):
     top_level_objects = categorize_top_level_objects(data, context)
     statements: List[ObjectTemplate] = []
     statements.extend(parse_included_files(path, data, context))
+    for kind in ("option", "macro", "plugin"):
+        for obj in top_level_objects[kind]:
+            declared = obj[kind]
+            if kind == "plugin":
+                well_formed = isinstance(declared, str) and "." in declared.strip(".")
+                well_formed = well_formed and not declared.startswith(".")
+            else:
+                well_formed = not isinstance(declared, (list, dict))
+            if not well_formed:
+                raise exc.DataGenSyntaxError(
+                    f"Cannot use `{declared}` as the name of a {kind}",
+                    **context.line_num(obj),
+                )
     context.options.extend(top_level_objects["option"])
     context.macros.update({obj["macro"]: obj for obj in top_level_objects["macro"]})
     plugin_specs = [
